@@ -135,6 +135,12 @@ pub open spec fn compat_post(value: CharacterData, spec: CharacterDataSpec, targ
         _ => r == (true, u32::MAX),
     }
 }
+// the clause unit compatwalk states on its leaf declaration: when an enumeration value is held wherever one is expected, the returned mask
+// contains the target exactly when the value is compatible
+pub proof fn lemma_compat_iff(value: CharacterData, spec: CharacterDataSpec, target: u32, r: (bool, u32))
+    requires compat_post(value, spec, target, r), target != 0, spec is Enum ==> value is Enum
+    ensures r.0 <==> r.1 & target != 0
+{ assert(target != 0 ==> 0xffff_ffffu32 & target != 0) by(bit_vector); }
 '''
 
 BV = '''proof { assert forall|a: u32, b: u32| #[trigger] (a & b) == b & a by { assert(a & b == b & a) by(bit_vector); } assert forall|a: u32| #[trigger] (0u32 & a) == 0 by { assert(0u32 & a == 0) by(bit_vector); } }'''
